@@ -2,7 +2,7 @@
    reconstruct.  Property theorems only; each is closed by [exact] of a lemma proved in proofs/. *)
 From SQ Require Import lib.Base gen.Gen_C08.
 From SQ Require model.PacketNumber proofs.PacketNumberProofs model.TxPn proofs.TxPnProofs.
-From SQ Require model.AckManager proofs.AckManagerProofs.
+From SQ Require model.AckManager proofs.AckManagerProofs proofs.AckRangesLemmas proofs.AckJudgeProofs.
 From Coq Require Import Sorting.Sorted.
 Import PacketNumber.
 Local Open Scope N_scope.
@@ -137,8 +137,38 @@ Theorem C08_ack_defaults : AckManager.default_settings =
      AckManager.elicitation_interval := 4; AckManager.ranges_limit := 10 |} /\ packet_tolerance = 10.
 Proof. exact AckManagerProofs.ack_defaults. Qed.
 
-(* ack_deadline is NOT proved: it is only evaluated by AckManager.judge (deadline_ok) on every
-   implementation and model output of the correspondence runs *)
+(* ack_deadline, for every configuration and every operation sequence (packet numbers below 2^62 - 1):
+   running the model together with the reference bookkeeping of the judgement (AckJudgeProofs.exec), every
+   ack-eliciting packet that is owed an acknowledgement -- processed, above the largest acknowledged of
+   every ACK frame whose carrier was acknowledged (RFC 9000 13.2.4), and not covered by an ACK frame
+   whose carrier is still in flight (a frame emitted after ack_ranges_limit packets were processed
+   counts as covering everything that arrived before it, 13.2.3; a covered packet is owed again when all
+   covering frames travelled in ack-eliciting packets declared lost) -- has the manager demanding a
+   transmission, or the delay timer armed no later than its arrival + max_ack_delay *)
+Theorem C08_ack_deadline : forall c ops, 1 <= AckManager.ranges_limit c -> Forall AckJudgeProofs.op_wf ops ->
+  let '(now', s', rf') := AckJudgeProofs.exec 1 (AckManager.init c) AckManager.ref0 ops in
+  forall p t, In (p, t) (AckManager.pend rf') ->
+    AckManager.is_active (AckManager.ts s') = true \/
+    exists d, AckManager.timer s' = Some d /\ d <= t + AckManager.max_ack_delay c.
+Proof. exact AckJudgeProofs.ack_deadline. Qed.
+
+(* the executable judgement (acks_subset_processed, immediate_on_reorder, ack_deadline evaluated on an
+   implementation's frames and timer values) accepts every run of the model *)
+Theorem C08_ackmgr_judge_model : forall c, Forall (fun z => (z < 4611686018427387903)%Z) c ->
+  AckManager.judge c (AckManager.run c) = true.
+Proof. exact AckJudgeProofs.judge_run. Qed.
+
+(* capacity eviction: what insert_packet_number sheds lies in the lowest interval, below the inserted
+   number, every other interval is retained; on an ascending list it is below every retained number *)
+Theorem C08_ranges_drop_only_lowest : forall l pn lim x,
+  AckRangesLemmas.WF l -> AckManager.len l <= lim -> 1 <= lim ->
+  AckManager.in_ranges x l = true -> AckManager.in_ranges x (AckManager.insert_packet_number pn l lim) = false ->
+  (exists a b t, l = (a, b) :: t /\ a <= x <= b /\ b < pn /\
+     (forall y, AckManager.in_ranges y t = true ->
+                AckManager.in_ranges y (AckManager.insert_packet_number pn l lim) = true)) /\
+  (AckJudgeProofs.Asc l ->
+   forall y, AckManager.in_ranges y (AckManager.insert_packet_number pn l lim) = true -> x < y).
+Proof. exact AckJudgeProofs.ranges_drop_only_lowest. Qed.
 
 (* non-vacuity (O4 shape): in-order eliciting packets arm the 25 ms timer, a gap activates, the ACK
    names exactly the processed numbers *)
@@ -165,3 +195,6 @@ Print Assumptions C08_acks_subset_processed.
 Print Assumptions C08_immediate_on_reorder.
 Print Assumptions C08_ranges_only_inserted.
 Print Assumptions C08_ack_defaults.
+Print Assumptions C08_ack_deadline.
+Print Assumptions C08_ackmgr_judge_model.
+Print Assumptions C08_ranges_drop_only_lowest.
